@@ -30,7 +30,9 @@ CONSTANTS Ns, Starts, Ps,      \* configuration space (chosen in Init)
           Epochs,              \* heads range over 0..S + Epochs*N - 1
           MaxPolls, MaxErrs,
           MaxInflight,         \* bound on parked sends
-          Reorder
+          Reorder,
+          SlowSub              \* TRUE: the subscriber of the epoch events (the aggsender's main loop) takes them when it
+                               \* wants to; they wait parked in the notifier's own fan-out.  FALSE: taken at once.
 
 VARIABLES N, S, P,
           bn,                  \* poller status: -1 = nil, otherwise lastBlockSeen
@@ -39,10 +41,11 @@ VARIABLES N, S, P,
           npolls, nerrs,
           lastPoll,            \* ghost: [prev |-> result of the poll before, r |-> result, emitted |-> <<..>>]
           dmax, firstPast, notified, announced, delivered,   \* ghosts
+          parkedE, got,        \* epoch events parked in the notifier's fan-out / received by the subscriber
           hist
 
-vars == <<N, S, P, bn, inflight, last, waiting, npolls, nerrs, lastPoll, dmax, firstPast, notified, announced, delivered, hist>>
-view == <<N, S, P, bn, inflight, last, waiting, npolls, nerrs, lastPoll, dmax, firstPast, notified, announced, delivered>>
+vars == <<N, S, P, bn, inflight, last, waiting, npolls, nerrs, lastPoll, dmax, firstPast, notified, announced, delivered, parkedE, got, hist>>
+view == <<N, S, P, bn, inflight, last, waiting, npolls, nerrs, lastPoll, dmax, firstPast, notified, announced, delivered, parkedE, got>>
 
 EpochNumber(b)        == IF b < S THEN 0 ELSE 1 + ((b - S) \div N)
 StartingBlockEpoch(e) == IF e = 0 THEN S - 1 ELSE S + (e - 1) * N
@@ -58,6 +61,7 @@ Init ==
   /\ npolls = 0 /\ nerrs = 0
   /\ lastPoll = [prev |-> -2, r |-> -2, emitted |-> <<>>]
   /\ dmax = S /\ firstPast = [e \in 1..Epochs |-> 0] /\ notified = <<>> /\ announced = <<>> /\ delivered = <<>>
+  /\ parkedE = <<>> /\ got = <<>>
   /\ hist = <<>>
 
 (* BlockNotifierPolling.step + Publish *)
@@ -72,7 +76,7 @@ Poll(r) ==
      /\ announced' = announced \o ev
      /\ lastPoll' = [prev |-> lastPoll.r, r |-> r, emitted |-> ev]
   /\ hist' = Append(hist, [a |-> "poll", r |-> r])
-  /\ UNCHANGED <<N, S, P, last, waiting, dmax, firstPast, notified, delivered>>
+  /\ UNCHANGED <<N, S, P, last, waiting, dmax, firstPast, notified, delivered, parkedE, got>>
 
 (* EpochNotifierPerBlock.step + Publish, on the i-th parked event *)
 Deliver(i) ==
@@ -84,15 +88,25 @@ Deliver(i) ==
      /\ dmax' = IF b > dmax THEN b ELSE dmax
      /\ firstPast' = IF b > dmax /\ e \in 1..Epochs /\ Past(b) /\ firstPast[e] = 0 THEN [firstPast EXCEPT ![e] = b] ELSE firstPast
      /\ IF b < S \/ b <= last
-        THEN UNCHANGED <<last, waiting, notified>>
+        THEN UNCHANGED <<last, waiting, notified, parkedE, got>>
         ELSE /\ last' = b
              /\ IF Past(b) /\ e + 1 > waiting
-                THEN waiting' = e + 1 /\ notified' = Append(notified, <<e, b>>)
-                ELSE UNCHANGED <<waiting, notified>>
+                THEN /\ waiting' = e + 1 /\ notified' = Append(notified, <<e, b>>)
+                     /\ IF SlowSub THEN parkedE' = Append(parkedE, e) /\ got' = got
+                                   ELSE got' = Append(got, e) /\ parkedE' = parkedE
+                ELSE UNCHANGED <<waiting, notified, parkedE, got>>
   /\ hist' = Append(hist, [a |-> "deliver", i |-> i])
   /\ UNCHANGED <<N, S, P, bn, npolls, nerrs, lastPoll, announced>>
 
-Next == (\E r \in -1..MaxHead : Poll(r)) \/ (\E i \in 1..MaxInflight : Deliver(i))
+(* the subscriber takes one parked epoch event (any of them: the parked sends race) *)
+Consume(i) ==
+  /\ i \in DOMAIN parkedE
+  /\ got' = Append(got, parkedE[i])
+  /\ parkedE' = [k \in 1..(Len(parkedE) - 1) |-> IF k < i THEN parkedE[k] ELSE parkedE[k + 1]]
+  /\ hist' = Append(hist, [a |-> "consume", i |-> i])
+  /\ UNCHANGED <<N, S, P, bn, inflight, last, waiting, npolls, nerrs, lastPoll, dmax, firstPast, notified, announced, delivered>>
+
+Next == (\E r \in -1..MaxHead : Poll(r)) \/ (\E i \in 1..MaxInflight : Deliver(i)) \/ (\E i \in 1..Epochs : Consume(i))
 Spec == Init /\ [][Next]_vars
 
 -----------------------------------------------------------------------------
@@ -109,6 +123,11 @@ ExactlyOnceAtFirstDelivered ==
   { notified[i] : i \in DOMAIN notified } = { <<e, firstPast[e]>> : e \in { x \in 1..Epochs : firstPast[x] # 0 } }
 StrictlyIncreasing == \A i, j \in DOMAIN notified : i < j => notified[i][1] < notified[j][1]
 NoDuplicates == Cardinality({ notified[i] : i \in DOMAIN notified }) = Len(notified)
+
+(* every notification reaches the subscriber, once: nothing is lost or invented in the notifier's fan-out *)
+CountIn(seq, x) == Cardinality({ i \in DOMAIN seq : seq[i] = x })
+NothingLostOrInvented ==
+  \A e \in 0..(Epochs + 1) : CountIn(got, e) + CountIn(parkedE, e) = Cardinality({ i \in DOMAIN notified : notified[i][1] = e })
 
 (* end to end, in publication order: an epoch is announced at the first PUBLISHED head past its threshold that exceeds
    every head published before.  Holds when pending sends complete in order; TLC refutes it for Reorder = TRUE
